@@ -4,7 +4,7 @@ PROPERTY = "C10"
 LEVEL = "proof"
 CONTRACT_MODULES = ["modeltypes", "config", "metadata", "analyzer"]
 FA = "sqllineage.core.parser.sqlfluff.analyzer.SqlFluffLineageAnalyzer."
-FUNCTIONS = [FA + "_list_specific_statement_segment", FA + "analyze", ("sqllineage.utils.helpers.split", ["modeltypes", "config", "helpers"])]
+FUNCTIONS = [FA + "_list_specific_statement_segment", FA + "analyze", ("sqllineage.utils.helpers.split", ["modeltypes", "config", "helpers"]), ("sqllineage.runner.LineageRunner._eval", ["modeltypes", "config", "metadata", "runner"])]
 SITE_CHECKS = [("raise sites and extractor dispatch (K3)", lambda repo: sitescan.raise_sites(repo, "C10"))]
 
 
@@ -23,7 +23,9 @@ EXPLANATION = (
     "raises: every partial operation of its own body (statement_segments[0], the cache lookup, the for-else) is shown not to "
     "raise; (3) helpers.split is exact; (4) site obligations: every `raise` of the package raises a SQLLineageException "
     "subclass (7 abstract NotImplementedError stubs assumed unreachable), the extractors' SUPPORTED_STMT_TYPES are pairwise "
-    "disjoint; (5) lemma: an empty holder is the identity of the statement fold (silent mode). NOT decided: that the "
+    "disjoint; (4b) LineageRunner._eval marks the runner evaluated only on normal exit and leaves the flag untouched on EVERY "
+    "exceptional edge, so an accessor used after a failed run evaluates again and raises the same library exception instead "
+    "of reaching its body without a result; (5) lemma: an empty holder is the identity of the statement fold (silent mode). NOT decided: that the "
     "extractors (code over third-party parse trees) and sqlfluff/sqlparse themselves never raise internal errors -- the "
     "extractors' `extract` is an ASSUMED contract; the bounded native fuzz stand-in covers it, labelled bounded."
 )
